@@ -19,6 +19,10 @@ ValueKeys(L) ==
     LET PS == SortedSeq([Range(L) -> P3]) IN
     [i \in DOMAIN PS |-> [kind |-> "v", syms |-> <<"v">> \o Code(PS[i], L),
                           name |-> Str(<<"v">> \o Code(PS[i], L)), pres |-> PS[i]]]
+    \* the same patterns once more as *interpolated* keys (text followed by a variable): generated code takes another path
+    \* (builder + per-locale match arms) for these than for plain literals
+    \o [i \in DOMAIN PS |-> [kind |-> "i", syms |-> <<"i">> \o Code(PS[i], L),
+                             name |-> Str(<<"i">> \o Code(PS[i], L)), pres |-> PS[i]]]
 
 \* with more than two non-default locales only one leaf pattern per group pattern is generated (the rotation of the group's)
 GroupKeys(L) ==
@@ -38,13 +42,18 @@ AbsKeys(L) == ValueKeys(L) \o GroupKeys(L)
 Eff(gp, lp) == [l \in DOMAIN gp |-> IF gp[l] = "def" THEN lp[l] ELSE "abs"]
 
 \* ---- file contents -------------------------------------------------------
+VarTail == <<"SP", "LB", "LB", "SP", "x", "SP", "RB", "RB">>
+ValueEntryX(l, isDef, nameSyms, name, p, interp) ==
+    IF isDef \/ p = "def" THEN << <<name, StrNode(TextOf(l, nameSyms) \o (IF interp THEN VarTail ELSE <<>>))>> >>
+    ELSE IF p = "null" THEN << <<name, NullNode>> >>
+    ELSE <<>>
 ValueEntry(l, isDef, nameSyms, name, p) ==
     IF isDef \/ p = "def" THEN << <<name, StrNode(TextOf(l, nameSyms))>> >>
     ELSE IF p = "null" THEN << <<name, NullNode>> >>
     ELSE <<>>
 
 KeyEntries(l, isDef, k) ==
-    IF k.kind = "v" THEN ValueEntry(l, isDef, k.syms, k.name, IF isDef THEN "def" ELSE k.pres[l])
+    IF k.kind \in {"v", "i"} THEN ValueEntryX(l, isDef, k.syms, k.name, IF isDef THEN "def" ELSE k.pres[l], k.kind = "i")
     ELSE LET g == IF isDef THEN "def" ELSE k.gp[l] IN
          IF g = "abs" THEN <<>>
          ELSE IF g = "null" THEN << <<k.name, NullNode>> >>
@@ -71,6 +80,12 @@ CaseOf(I, def, L) ==
 TextTree(s)  == [lit |-> "String", c |-> << [k |-> "text", s |-> s, tab |-> s] >>]
 DefaultTree  == [lit |-> "none", c |-> << [k |-> "default"] >>]
 
+NoFmt == [name |-> "none", args |-> <<>>]
+InterpTree(s) == [lit |-> "none", c |-> << [k |-> "text", s |-> s \o <<"SP">>, tab |-> s \o <<"SP">>], [k |-> "var", n |-> "x", f |-> NoFmt] >>]
 ExpectVal(l, def, nameSyms, p) ==
     IF l = def \/ p = "def" THEN TextTree(TextOf(l, nameSyms)) ELSE DefaultTree
+ExpectValX(l, def, nameSyms, p, interp) ==
+    IF ~interp THEN ExpectVal(l, def, nameSyms, p)
+    ELSE IF l = def \/ p = "def" THEN InterpTree(TextOf(l, nameSyms)) ELSE DefaultTree
+XVal == <<"X", "1">>
 =============================================================================
